@@ -294,7 +294,7 @@ class Body:
 
 
 KINDS = ['func', 'func', 'method', 'method', 'classmethod', 'staticmethod', 'closure', 'inner_method', 'recursive',
-         'libfunc', 'varargs']
+         'libfunc', 'varargs', 'composite', 'composite']
 
 
 def gen_program(rng, depth=None, nlocals=None):
@@ -321,6 +321,9 @@ def gen_program(rng, depth=None, nlocals=None):
             return 'C%d.sm%d(%s)' % (i, i, arg)
         if k == 'inner_method':
             return 'O%d.In%d().im%d(%s)' % (i, i, i, arg)
+        if k == 'composite':
+            # a tree walk: one inherited method (one code object) running on objects of different subclasses
+            return 'Group%d([Layer%d([Sprite%d()]), Sprite%d()]).area%d(%s)' % (i, i, i, i, i, arg)
         if k == 'libfunc':
             nxt = call_expr(i + 1, 'v%d' % i)
             return 'B.g%d(%s, %s)' % (i, arg, ('lambda v%d: %s' % (i, nxt)) if nxt else 'None')
@@ -331,7 +334,8 @@ def gen_program(rng, depth=None, nlocals=None):
         p = 'p%d' % i
         lines = []
         fname = {'func': 'f%d', 'closure': 'inner%d', 'recursive': 'f%d', 'varargs': 'f%d', 'method': 'm%d',
-                 'classmethod': 'cm%d', 'staticmethod': 'sm%d', 'inner_method': 'im%d', 'libfunc': 'g%d'}[k] % i
+                 'classmethod': 'cm%d', 'staticmethod': 'sm%d', 'inner_method': 'im%d', 'libfunc': 'g%d',
+                 'composite': 'area%d'}[k] % i
         funcs.append(fname)
         base = 4
         head = []
@@ -368,6 +372,11 @@ def gen_program(rng, depth=None, nlocals=None):
         elif k == 'libfunc':
             head = ['def g%d(%s, nxt):' % (i, p)]
             params = [p, 'nxt']
+        elif k == 'composite':
+            head = ['class Shape%d:' % i, '    def __init__(self, kids=()):', '        self.kids = list(kids)',
+                    '', '    def area%d(self, %s):' % (i, p)]
+            base = 8
+            params = ['self', p]
         body = Body(rng, 'x%d_' % i, base)
         argname = 'a%d' % i if k == 'closure' else p
         if k == 'closure':
@@ -379,12 +388,16 @@ def gen_program(rng, depth=None, nlocals=None):
         if k == 'recursive':
             body.emit('if n%d > 0:' % i)
             body.emit('    return f%d(%s, n%d - 1)' % (i, p, i), cand=False)
+        if k == 'composite':
+            # everything after this line runs in the leaf only, below two frames of the same code object
+            body.emit('if self.kids:')
+            body.emit('    return self.kids[0].area%d(%s)' % (i, p), cand=False)
         if k == 'libfunc':
             body.emit('r%d = nxt(%s) if nxt else %s' % (i, argname, argname))
         else:
             nxt = call_expr(i + 1, rng.choice([argname, "'s%d'" % i, '[%s]' % argname, '(%s, 1)' % argname])
                             if rng.random() < 0.3 else argname)
-            if nxt and k in ('method', 'inner_method') and rng.random() < 0.5:
+            if nxt and k in ('method', 'inner_method', 'composite') and rng.random() < 0.5:
                 body.emit('me%d = self' % i)
                 body.names.append('me%d' % i)
             body.emit('r%d = %s' % (i, nxt or argname))
@@ -398,6 +411,10 @@ def gen_program(rng, depth=None, nlocals=None):
             blk.append((text, cand, {'level': i, 'func': fname, 'params': params}))
         if k == 'closure':
             blk.append(('    return inner%d(%s)' % (i, p), False, None))
+        if k == 'composite':
+            for sub in ('Group', 'Layer', 'Sprite'):
+                blk += [('', False, None), ('', False, None), ('class %s%d(Shape%d):' % (sub, i, i), False, None),
+                        ('    pass', False, None)]
         target.append(blk)
 
     main = ['def main():', '    m_local = 1', '    keep = Plain(99)']
